@@ -334,6 +334,25 @@ func (x *runner) handover(B []*pk.Key, cfgSync bool) bool {
 	}
 	_, _, f = x.both("next-set-signs-after-refused-config", x.quorum(B), nil, true)
 	fine = fine && f
+	// a configuration block that LISTS a full quorum of the set in force but whose signatures do
+	// not verify (over another hash / garbage): it is refused only at the signature step, and the
+	// set it announces must still not come into force
+	{
+		e := sigkit.Canonical(subset(x.rng, A, x.m(A)))
+		for i := range e {
+			if i%2 == 0 {
+				e[i].WrongHash = true
+			} else {
+				e[i].Garbage = true
+			}
+		}
+		_, _, f = x.both("listed-quorum-bad-signatures-config-block", e, B, x.rng.Intn(2) == 0)
+		fine = fine && f
+		_, _, f = x.both("next-set-signs-after-bad-signature-config", x.quorum(B), nil, x.rng.Intn(2) == 0)
+		fine = fine && f
+		_, _, f = x.both("set-in-force-still-signs-after-bad-signature-config", x.quorum(A), nil, false)
+		fine = fine && f
+	}
 	if !fine {
 		return false
 	}
